@@ -226,6 +226,10 @@ class Actor(object):
             elif k == "ask":
                 from clikit.ui.components import ConfirmationQuestion
                 rec["answers"].append(ConfirmationQuestion("Proceed?", st[1]).ask(io))
+            elif k == "section":
+                sec = io.section()
+                sec.write_line(st[1])
+                sec.output.overwrite(st[2])
             elif k == "readline":
                 rec.setdefault("lines", []).append(io.read_line(default=st[1]))
             elif k == "deep":
